@@ -4,3 +4,7 @@ import SoxrModel.Properties.C03
 #print axioms Soxr.Properties.C03.streaming_counts
 #print axioms Soxr.Properties.C03.total_exact
 #print axioms Soxr.Properties.C03.histories_run
+#print axioms Soxr.Properties.C03.offset_nonneg
+#print axioms Soxr.Properties.C03.margOf_nonneg
+#print axioms Soxr.Properties.C03.never_early
+#print axioms Soxr.Properties.C03.never_early_round
